@@ -8,6 +8,7 @@ package PKGNAME
 
 import (
 	"encoding/json"
+	"errors"
 	"hash/crc32"
 	"os"
 	"runtime"
@@ -32,6 +33,7 @@ type vfPcStep struct {
 	Rate  int          `json:"rate"` // bits per second
 	Ms    int          `json:"ms"`
 	Wait  int          `json:"wait"` // quiesce: 3 x the time the token model needs + slack, in ms
+	Fail  int          `json:"fail"` // write: the stream's next writer fails this many times for this packet
 	Progs [][]vfPcStep `json:"progs"`
 }
 
@@ -41,7 +43,21 @@ type vfPcScript struct {
 	Ival    int        `json:"ival"` // ms
 	Qsize   int        `json:"qsize"` // pacing interceptor: capacity of the hand-over channel, 0 = the default (10^6)
 	Streams []uint32   `json:"streams"`
+	Twcc    [][2]int   `json:"twcc"` // SendSideBWE level: [stream, transport-cc extension id] of the streams that negotiated it
 	Steps   []vfPcStep `json:"steps"`
+}
+
+var errVfInjected = errors.New("verif: injected failure of the downstream writer")
+
+// vfPcTwccID returns the transport-cc extension id negotiated for stream s (0 = none).
+func (sc *vfPcScript) vfPcTwccID(s uint32) int {
+	for _, t := range sc.Twcc {
+		if uint32(t[0]) == s { //nolint:gosec
+			return t[1]
+		}
+	}
+
+	return 0
 }
 
 // vfPcTarget adapts the pacer under test.
@@ -59,6 +75,7 @@ type vfPcRun struct {
 	released int
 	holdMs   int           // the next release blocks the pacer for this long (a slow transport)
 	inHold   chan struct{} // closed when that release has arrived in the writer
+	fails    map[int]int   // packet id -> how many more times its downstream write fails
 }
 
 func (r *vfPcRun) add(ev vfM) {
@@ -129,7 +146,7 @@ func vfPcRec(h *rtp.Header, pl []byte) vfM {
 func vfPcBits(h *rtp.Header, pl []byte) int { return 8 * (h.MarshalSize() + len(pl)) }
 
 func vfPcExec(sc *vfPcScript, mk func(sc *vfPcScript) (vfPcTarget, error)) ([]vfM, error) { //nolint:gocognit,cyclop
-	r := &vfPcRun{t0: time.Now()} // before the pacer exists: its bucket cannot have been filled earlier
+	r := &vfPcRun{t0: time.Now(), fails: map[int]int{}} // t0 before the pacer exists: its bucket cannot have been filled earlier
 	tg, err := mk(sc)
 	if err != nil {
 		return nil, err
@@ -150,7 +167,17 @@ func vfPcExec(sc *vfPcScript, mk func(sc *vfPcScript) (vfPcTarget, error)) ([]vf
 					close(entered)
 					time.Sleep(time.Duration(hold) * time.Millisecond)
 				}
-				r.add(vfM{"a": "rel", "s": s, "bits": vfPcBits(h, pl), "pkt": vfPcRec(h, pl)})
+				r.mu.Lock()
+				fail := r.fails[int(h.SequenceNumber)] > 0
+				if fail {
+					r.fails[int(h.SequenceNumber)]--
+				}
+				r.mu.Unlock()
+				// a failing transport: the attempt is a delivery of the packet all the same
+				r.add(vfM{"a": "rel", "s": s, "bits": vfPcBits(h, pl), "pkt": vfPcRec(h, pl), "fail": fail})
+				if fail {
+					return 0, errVfInjected
+				}
 
 				return h.MarshalSize() + len(pl), nil
 			}))
@@ -182,6 +209,16 @@ func vfPcExec(sc *vfPcScript, mk func(sc *vfPcScript) (vfPcTarget, error)) ([]vf
 					continue
 				}
 				h, pl := vfPcPacket(ssrc, st.ID, st.Len, st.Csrc, st.Shape)
+				if id := sc.vfPcTwccID(ssrc); id != 0 {
+					// a stream that negotiated transport-cc: the packet carries the extension when it reaches the pacer
+					tcc, _ := (&rtp.TransportCCExtension{TransportSequence: uint16(st.ID)}).Marshal() //nolint:gosec
+					_ = h.SetExtension(uint8(id), tcc)                                               //nolint:gosec
+				}
+				if st.Fail > 0 {
+					r.mu.Lock()
+					r.fails[int(uint16(st.ID))] = st.Fail //nolint:gosec
+					r.mu.Unlock()
+				}
 				r.add(vfM{"a": "call", "p": st.ID, "g": g, "s": key, "bits": vfPcBits(h, pl), "pkt": vfPcRec(h, pl)})
 				_, werr := w.Write(h, pl, interceptor.Attributes{})
 				r.add(vfM{"a": "ret", "p": st.ID, "ok": werr == nil})
